@@ -297,6 +297,31 @@ def run(ck):
                     x2, y2 = (ua ** q1) * (ua ** q2), ua ** (q1 + q2)
                     oracle(x2.is_compatible_with(y2), "config-mul:" + label, f"{a}**{q1} * {a}**{q2} is not compatible with {a}**{q1 + q2} under configuration {label}", rp)
                 ck.case(key=("config-pow", label, a, str(q1), k))
+        # products and quotients of QUANTITIES in this configuration (auto_reduce_dimensions rewrites the units of every
+        # product): the result exists and has the product / quotient of the dimensionalities
+        for _ in range(600 if thorough else 160):
+            a, b = rng.choice(mult), rng.choice(mult)
+            if rng.random() < 0.6:        # dimensionalities proportional with a ratio other than +-1: length x area, area / length ...
+                a = rng.choice([m for m in ("meter", "foot", "inch", "acre", "hectare", "barn", "liter", "gallon", "kilometer", "second", "hertz") if m in dim_of])
+                b = rng.choice([m for m in ("acre", "hectare", "barn", "liter", "cubic_centimeter", "foot", "meter", "hertz", "second", "square_foot") if m in dim_of])
+            if label == "Decimal" and any(x in ("liter", "gallon", "cubic_centimeter") for x in (a, b)):
+                continue                  # inexact Decimal thirds in the reduction (to_reduced_units, C15's F22 family)
+            da_, db_ = dict(dim_of[a]), dict(dim_of[b])
+            for opn, sign in (("*", 1), ("/", -1)):
+                want = dict(da_)
+                for k, v in db_.items():
+                    want[k] = want.get(k, 0) + sign * v
+                want = {k: v for k, v in want.items() if v != 0}
+                rp = {"a": a, "b": b, "op": opn, "configuration": label}
+                try:
+                    r = (u2.Quantity(one, a) * u2.Quantity(one, b)) if sign == 1 else (u2.Quantity(one, a) / u2.Quantity(one, b))
+                except Exception as e:
+                    oracle(False, "config-quantity-product:" + label, f"Quantity({a}) {opn} Quantity({b}) raises {type(e).__name__} under configuration {label}", rp)
+                    continue
+                got = {k: F(v).limit_denominator(1000) for k, v in r.dimensionality.items()}
+                oracle(got == {k: F(v) for k, v in want.items()}, "config-quantity-product-dim:" + label,
+                       f"Quantity({a}) {opn} Quantity({b}) has dimensionality {got}, expected {want} under configuration {label}", rp)
+            ck.case(key=("config-qprod", label, a, b))
         ck.count("config:" + label, 300)
     shutil.rmtree(cdir, ignore_errors=True)
 
